@@ -5,9 +5,9 @@
 EXTENDS FuseMgr, Json
 
 CoreRec  == [status |-> status, cfg |-> cfg, cur |-> cur, fsMap |-> fsMap, store |-> store, insts |-> insts,
-             live |-> live, epoch |-> epoch, ninit |-> ninit, hist |-> hist]
+             live |-> live, liveLab |-> liveLab, epoch |-> epoch, ninit |-> ninit, hist |-> hist]
 CoreRecP == [status |-> status', cfg |-> cfg', cur |-> cur', fsMap |-> fsMap', store |-> store', insts |-> insts',
-             live |-> live', epoch |-> epoch', ninit |-> ninit', hist |-> hist']
+             live |-> live', liveLab |-> liveLab', epoch |-> epoch', ninit |-> ninit', hist |-> hist']
 
 GenInit == Init /\ PrintT("VINIT " \o ToJson(CoreRec))
 GenNext == Next /\ PrintT("VEDGE " \o ToJson([from |-> CoreRec, last |-> last', to |-> CoreRecP]))
